@@ -63,6 +63,27 @@ type Engine struct {
 	loopCache   map[*ssa.Function]*loopInfo
 	uninterp    map[string]bool
 	MaxInline   int
+	collect     *loopFrame // store targets seen during a dry run
+}
+
+// loopFrame records which objects a loop body writes, per heap.
+type loopFrame struct {
+	bases map[string][]T
+	wild  map[string]bool
+}
+
+func (e *Engine) recStore(heap string, base T) {
+	if e.collect == nil {
+		return
+	}
+	e.collect.bases[heap] = append(e.collect.bases[heap], base)
+}
+
+func (e *Engine) recWild(heap string) {
+	if e.collect == nil {
+		return
+	}
+	e.collect.wild[heap] = true
 }
 
 type engineError struct{ msg string }
@@ -149,7 +170,13 @@ func (e *Engine) name(t T, hint string) T {
 		return t
 	}
 	n := e.freshName(hint)
-	e.emit(fmt.Sprintf("(define-fun %s () %s %s)", n, t.Sort, t.S))
+	if t.Sort == sBool {
+		// boolean names stay macros: they are path conditions, never trigger material
+		e.emit(fmt.Sprintf("(define-fun %s () %s %s)", n, t.Sort, t.S))
+		return T{n, t.Sort}
+	}
+	e.emit(fmt.Sprintf("(declare-const %s %s)", n, t.Sort))
+	e.emit(fmt.Sprintf("(assert (= %s %s))", n, t.S))
 	return T{n, t.Sort}
 }
 
@@ -233,6 +260,7 @@ type State struct {
 	heaps  map[string]T
 	epoch  int
 	defers map[int][]*deferEntry
+	nonnil map[string]bool // terms already shown (or assumed) non-nil on every path to here
 }
 
 func (s *State) clone() *State {
@@ -246,11 +274,17 @@ func (s *State) clone() *State {
 	for k, v := range s.defers {
 		n.defers[k] = append([]*deferEntry(nil), v...)
 	}
+	if s.nonnil != nil {
+		n.nonnil = make(map[string]bool, len(s.nonnil))
+		for k := range s.nonnil {
+			n.nonnil[k] = true
+		}
+	}
 	return n
 }
 
 func (s *State) assign(o *State) {
-	s.pc, s.cells, s.heaps, s.epoch, s.defers = o.pc, o.cells, o.heaps, o.epoch, o.defers
+	s.pc, s.cells, s.heaps, s.epoch, s.defers, s.nonnil = o.pc, o.cells, o.heaps, o.epoch, o.defers, o.nonnil
 }
 
 // heap returns the current term of heap `name` (declaring its epoch default on demand).
@@ -308,6 +342,9 @@ func (e *Engine) setHeap(st *State, name string, t T) {
 
 // havocAll starts a new epoch: every heap is unknown.
 func (e *Engine) havocAll(st *State) {
+	if e.collect != nil {
+		e.collect.wild["*"] = true
+	}
 	e.epochSeq++
 	st.epoch = e.epochSeq
 	st.heaps = map[string]T{}
@@ -482,7 +519,11 @@ func (e *Engine) implFacts(pred string, iface types.Type) {
 // Pointers and memory
 
 // CellPtr is the address of a local variable that never escapes.
-type CellPtr struct{ key cellKey }
+type CellPtr struct {
+	key    cellKey
+	path   []int        // field path into a struct-valued cell
+	ptypes []types.Type // struct type at each step of path
+}
 
 // FieldPtr is the address of a non-struct field of a heap object.
 type FieldPtr struct {
@@ -592,6 +633,7 @@ func (e *Engine) storeStruct(st *State, r T, t types.Type, v T) {
 		}
 		hn := e.fieldHeapName(skey, s, i)
 		h := e.heap(st, hn, arraySort(sRef, e.sortOf(ft)))
+		e.recStore(hn, r)
 		e.setHeap(st, hn, tStore(h, r, fv))
 	}
 }
@@ -614,6 +656,7 @@ func (e *Engine) storePointee(st *State, r T, t types.Type, v T) {
 		return
 	}
 	hn, hs := e.pointeeHeap(t)
+	e.recStore(hn, r)
 	e.setHeap(st, hn, tStore(e.heap(st, hn, hs), r, v))
 }
 
@@ -637,6 +680,7 @@ func (e *Engine) storeElem(st *State, base, idx T, et types.Type, v T) {
 	}
 	hn, hs := e.elemHeap(et)
 	h := e.heap(st, hn, hs)
+	e.recStore(hn, base)
 	e.setHeap(st, hn, tStore(h, base, tStore(tSel(h, base), idx, v)))
 }
 
@@ -647,6 +691,12 @@ func (e *Engine) load(st *State, p Val, t types.Type) Val {
 		v, ok := st.cells[q.key]
 		if !ok {
 			e.unsupported("read of uninitialised cell %s", q.key.alloc.Comment)
+		}
+		for i, f := range q.path {
+			tv := v.(T)
+			sty := q.ptypes[i].Underlying().(*types.Struct)
+			sort := e.sortOf(q.ptypes[i])
+			v = T{fmt.Sprintf("(%s %s)", e.fieldSel(sort, sty, f), tv.S), e.sortOf(sty.Field(f).Type())}
 		}
 		return v
 	case *FieldPtr:
@@ -671,9 +721,18 @@ func (e *Engine) wrapFunc(v T, t types.Type) Val { return v }
 func (e *Engine) store(st *State, p Val, t types.Type, v Val) {
 	switch q := p.(type) {
 	case *CellPtr:
-		st.cells[q.key] = v
+		if len(q.path) == 0 {
+			st.cells[q.key] = v
+			return
+		}
+		root, ok := st.cells[q.key].(T)
+		if !ok {
+			e.unsupported("field store into non-term cell")
+		}
+		st.cells[q.key] = e.name(e.updatePath(root, q.path, q.ptypes, e.toTerm(v, t)), "c_"+q.key.alloc.Comment)
 	case *FieldPtr:
 		h := e.heap(st, q.heap, arraySort(sRef, e.sortOf(q.ftype)))
+		e.recStore(q.heap, q.base)
 		e.setHeap(st, q.heap, tStore(h, q.base, e.toTerm(v, q.ftype)))
 	case *ElemPtr:
 		e.storeElem(st, q.base, q.idx, q.etype, e.toTerm(v, q.etype))
@@ -685,6 +744,25 @@ func (e *Engine) store(st *State, p Val, t types.Type, v Val) {
 	default:
 		e.unsupported("store through %T", p)
 	}
+}
+
+// updatePath rebuilds struct value root with the field at path replaced by nv.
+func (e *Engine) updatePath(root T, path []int, ptypes []types.Type, nv T) T {
+	sty := ptypes[0].Underlying().(*types.Struct)
+	sort := e.sortOf(ptypes[0])
+	var args []T
+	for i := 0; i < sty.NumFields(); i++ {
+		cur := T{fmt.Sprintf("(%s %s)", e.fieldSel(sort, sty, i), root.S), e.sortOf(sty.Field(i).Type())}
+		if i == path[0] {
+			if len(path) == 1 {
+				cur = nv
+			} else {
+				cur = e.updatePath(cur, path[1:], ptypes[1:], nv)
+			}
+		}
+		args = append(args, cur)
+	}
+	return T{app("mk_"+sort, args...), sort}
 }
 
 // toTerm converts an engine value into an SMT term of type t (function values become
@@ -910,6 +988,9 @@ func (e *Engine) assumeTypeInv(st *State, v Val, t types.Type) {
 // freshOfType returns an unconstrained value of Go type t with its type invariant assumed.
 func (e *Engine) freshOfType(st *State, t types.Type, hint string) Val {
 	if tup, ok := t.(*types.Tuple); ok {
+		if tup.Len() == 1 {
+			return e.freshOfType(st, tup.At(0).Type(), hint)
+		}
 		var out Tuple
 		for i := 0; i < tup.Len(); i++ {
 			out = append(out, e.freshOfType(st, tup.At(i).Type(), hint))
